@@ -3,6 +3,10 @@ CONSTANTS NC = 3
           NL = 4
           MaxIter1 = 2
           MaxIter2 = 3
+          StrictCap = 3
+          StepCap = 2
+          RelaxedCap = 4
+          DeTop = 5
 INVARIANT C01_FlagExact
 INVARIANT C02_NoHarm
 INVARIANT C02_AlreadyOk
